@@ -645,7 +645,7 @@ func (t *Translator) run() {
 	if t.spec != nil {
 		for _, c := range t.spec.Requires {
 			f, _ := t.env(st, st.heap, nil).Eval(c.E)
-			t.assume(st, f)
+			t.assumeL(st, f, "requires")
 		}
 	}
 	if t.spec != nil && t.spec.SortSlice != nil && len(fn.Params) >= 2 {
